@@ -221,7 +221,9 @@ impl<F: Seek> Directory<F> {
         let index_within_sector = stream_id % dir_entries_per_sector;
         let mut directory_sector = self.dir_start_sector;
         for _ in 0..(stream_id / dir_entries_per_sector) {
-            debug_assert_ne!(directory_sector, consts::END_OF_CHAIN);
+            if directory_sector == consts::END_OF_CHAIN {
+                malformed!("directory chain is too short for entry {}", stream_id);
+            }
             directory_sector = self.allocator.next(directory_sector)?;
         }
         self.allocator.seek_within_subsector(
@@ -287,7 +289,13 @@ impl<F: Write + Seek> Directory<F> {
             sibling_id = match ordering {
                 Ordering::Less => sibling.left_sibling,
                 Ordering::Greater => sibling.right_sibling,
-                Ordering::Equal => panic!("internal error: insert duplicate"),
+                Ordering::Equal => {
+                    // Callers check that the name is not in use, so this can
+                    // only happen if the tree is inconsistent (damaged file,
+                    // or an earlier update that failed half-way).
+                    *self.dir_entry_mut(stream_id) = DirEntry::unallocated();
+                    malformed!("sibling tree is inconsistent near {:?}", name);
+                }
             };
         }
         match ordering {
@@ -327,8 +335,12 @@ impl<F: Write + Seek> Directory<F> {
         let mut stream_ids = Vec::new();
         let mut stream_id = self.dir_entry(parent_id).child;
         loop {
-            debug_assert_ne!(stream_id, consts::NO_STREAM);
-            debug_assert!(!stream_ids.contains(&stream_id));
+            if stream_id == consts::NO_STREAM
+                || stream_ids.contains(&stream_id)
+            {
+                // (Inconsistent tree: see insert_dir_entry.)
+                malformed!("sibling tree is inconsistent near {:?}", name);
+            }
             stream_ids.push(stream_id);
             let dir_entry = self.dir_entry(stream_id);
             match internal::path::compare_names(name, &dir_entry.name) {
